@@ -879,6 +879,13 @@ func TestC08(t *testing.T) {
 }
 
 func TestReplay(t *testing.T) {
+	if stats.ReplayTest() == "TestC08_GroupKey" {
+		var gc GCase
+		if stats.LoadReplay(t, &gc) {
+			checkGroupKey(stats.Begin("C08", "TestReplay"), t, gc)
+		}
+		return
+	}
 	var c Case
 	if !stats.LoadReplay(t, &c) {
 		return
